@@ -360,6 +360,7 @@ package bcl
 //@ func (*parser).parsePrecedence
 //@   ensures [C17] no_terminator_inside_an_expression: p.hadError || p.prev.typ != tSEMICOLON
 //@   requires prec_range: precAssign <= prec && prec <= precUnary
+//@   ensures [C17,C20,C01] the_expression_takes_every_operator_that_binds_at_least_as_tightly: p.hadError || rules[p.current.typ].prec < prec
 //@   requires at_boundary: p.hadError || g.pend == F0()
 //@   ensures one_value: p.hadError || (g.sd == old(g.sd) + 1 && g.pend == F0() && g.njopen == old(g.njopen) && g.bd == old(g.bd) && g.uninit == old(g.uninit))
 //@   ensures jframe: forall o int :: o < old(len(p.prog.code)) ==> select(g.jopen, o) == old(select(g.jopen, o)) && select(g.jd, o) == old(select(g.jd, o))
